@@ -124,6 +124,10 @@ def oracle_read(case, results, dfile):
             if o[1] == 0:
                 ex = 0
             del p0
+        elif k == "seek" and case.get("via") == "pipe":
+            exp = ["e", 101]       # not seekable: io.UnsupportedOperation
+        elif k == "q" and o[1] == "seekable" and case.get("via") == "pipe":
+            exp = ["t", False]
         elif k == "seek":
             if o[2] not in (0, 1, 2):
                 exp = ["e", 1]
@@ -313,7 +317,9 @@ def gen_exhaustive(quick):
             dict(fmt="gzip", level=6, payload={"gen": "lcg", "n": 9, "seed": 4}, bufsize=4, maxlen=2),
             dict(fmt="zlib", level=6, payload={"gen": "rep", "n": 40, "seed": 1}, bufsize=None, maxlen=2),
             dict(fmt="zlib", level=1, payload={"gen": "lcg", "n": 7, "seed": 5}, bufsize=2, maxlen=2,
-                 trailer={"kind": "bytes", "n": 3})]
+                 trailer={"kind": "bytes", "n": 3}),
+            dict(fmt="zlib", level=6, payload={"gen": "lcg", "n": 48000, "seed": 8}, bufsize=None, maxlen=2,
+                 via="shortraw", short_seed=11)]
     if not quick:
         base.append(dict(fmt="gzip", level=9, payload={"gen": "lcg", "n": 13, "seed": 6}, bufsize=5, maxlen=3,
                          trailer={"kind": "stream"}))
@@ -324,7 +330,8 @@ def gen_exhaustive(quick):
             for ops in itertools.product(SMALL_ALPHABET, repeat=L):
                 c = {"kind": "read", "fmt": b["fmt"], "level": b["level"], "payload": b["payload"],
                      "bufsize": b["bufsize"], "trailer": b.get("trailer"), "trunc": b.get("trunc"),
-                     "via": "bytesio", "ops": [list(o) for o in ops], "family": "exhaustive"}
+                     "via": b.get("via", "bytesio"), "short_seed": b.get("short_seed"),
+                     "ops": [list(o) for o in ops], "family": "exhaustive"}
                 cases.append(c)
     return cases
 
@@ -413,11 +420,20 @@ def gen_random(rng, count):
         c = {"kind": "read", "fmt": fmt, "level": rng.randint(1, 9), "payload": {"gen": gen, "n": n, "seed": i},
              "bufsize": bufsize, "trailer": trailer, "trunc": None, "via": "path" if rng.random() < 0.1 else "bytesio",
              "family": "random"}
+        v = rng.random()
+        if v < 0.14:      # an underlying raw stream that legally returns short reads
+            c["via"], c["short_seed"] = "shortraw", rng.randrange(10 ** 6)
+        elif v < 0.17 and trailer is None:
+            c["via"], c["short_seed"] = "pipe", rng.randrange(10 ** 6)
         if trailer is None and rng.random() < 0.08:
             flen = len(sh.build_file(c)[0])
             c["trunc"] = rng.choice([0, 1, 2, flen // 2, flen - 1, flen - 4, max(0, flen - 5), rng.randint(0, flen)])
             c["trunc"] = max(0, min(flen, c["trunc"]))
         c["ops"] = gen_ops(rng, n, gen == "text", rng.choice([1, 2, 3, 5, 8, 13, 20, 40]))
+        if c["via"] == "pipe":   # forward-only stream: reads, readinto, tell, queries (a seek raises UnsupportedOperation)
+            c["ops"] = [o for o in c["ops"] if o[0] in ("read", "readinto", "readline", "tell", "q")][:12] + [["seek", 0, 0],
+                                                                                                                ["read", -1], ["tell"]]
+            c["trunc"] = None
         cases.append(c)
     return cases
 
@@ -654,6 +670,9 @@ def evaluate(ctx, cases, name, stats, shard=None):
         if bad:
             oracle_fail.append((bad, c, r))
             continue
+        if c.get("via") == "pipe":
+            stats["pipe_cases"] = stats.get("pipe_cases", 0) + 1
+            continue       # block boundaries decided by timing: judged by the oracle only
         sc = r["script"]
         if not r["script_ok"]:
             script_fail.append(("the decompressor was not driven as the script assumes: %s" % r["script_why"], c, r))
